@@ -133,6 +133,27 @@ func compare(c *core.Ctx, layer string, fc fileCase, obs []obsRec, det map[strin
 	return true
 }
 
+// withoutQualities: the reader was told not to keep the quality scores. No observed record may carry
+// any; the expected records are returned without theirs.
+func withoutQualities(c *core.Ctx, fc fileCase, obs []obsRec, det map[string]any) (fileCase, bool) {
+	for i := range obs {
+		if len(obs[i].Qual) > 0 {
+			det["record_index"], det["of_records"], det["observed"] = i, len(obs), obs[i]
+			where := "inner"
+			if i == len(obs)-1 {
+				where = "last-of-file"
+			}
+			c.Violate("record:qualities-not-requested:"+where, "reader layer: a record carries quality scores although the reader was told not to keep them", det)
+			return fc, false
+		}
+	}
+	fc.recs = append([]gen.SeqRec{}, fc.recs...)
+	for i := range fc.recs {
+		fc.recs[i].Qual = nil
+	}
+	return fc, true
+}
+
 type oneByte struct{ r io.Reader }
 
 func (o oneByte) Read(p []byte) (int, error) {
@@ -301,6 +322,19 @@ func runReader(c *core.Ctx) {
 	case 2:
 		opts = append(opts, obiformats.OptionsFastSeqHeaderParser(obiformats.ParseFastSeqJsonHeader))
 	}
+	// flat files read with their feature table kept (an API option): identifier, definition, sequence
+	// and taxon are what they are without it
+	if (format == "embl" || format == "genbank") && (c.Idx/4)%2 == 1 {
+		opts = append(opts, obiformats.WithFeatureTable(true))
+		c.Count("flat_file_reads_with_feature_table", 1)
+	}
+	// the reader told not to keep the quality scores (what obiuniq asks for): no record carries any,
+	// wherever it lies in the file and however the file ends
+	noQual := format == "fastq" && c.Idx%5 == 3
+	if noQual {
+		opts = append(opts, obiformats.OptionsReadQualities(false))
+		c.Count("fastq_reads_without_qualities", 1)
+	}
 	// full-file mode (OptionsFullFileBatch): the reader delivers ONE batch holding the records of the
 	// file, in file order
 	fullFile := (c.Idx/16)%3 == 2
@@ -392,6 +426,12 @@ func runReader(c *core.Ctx) {
 				return
 			}
 		}
+		if noQual {
+			var okQ bool
+			if fc, okQ = withoutQualities(c, fc, obs, det); !okQ {
+				return
+			}
+		}
 		compare(c, "reader layer, full-file batch", fc, obs, det)
 		return
 	}
@@ -425,6 +465,12 @@ func runReader(c *core.Ctx) {
 			if i < len(fc.recs) && strings.HasPrefix(fc.recs[i].Def, "{") {
 				obs[i].Def = fc.recs[i].Def
 			}
+		}
+	}
+	if noQual {
+		var okQ bool
+		if fc, okQ = withoutQualities(c, fc, obs, det); !okQ {
+			return
 		}
 	}
 	compare(c, "reader layer", fc, obs, det)
@@ -723,7 +769,7 @@ func init() {
 		ID:    "C01",
 		Level: "exploration",
 		Rule: "files are generated from a drawn record list (ground truth) and rendered with format variation (FASTA folding 1..120 or none, LF/CRLF, final newline or not, case mix, FASTQ quality lines starting with '@'/'+' or made of letters, '+id' lines, ids/definitions containing '>' '@' '+' '{', GenBank/EMBL records with and without taxon cross-reference, 1-3 definition lines). Layer 1: ReadSeqFileChunk with EVERY buffer size b in [2, len+2] (step>1 only above 1.5k/6k bytes) over bytes / one-byte / short-read readers, each chunk parsed on its own by the real chunk parser; layer 2: the real ReadFasta/ReadFastq/ReadGenbank/ReadEMBL with forced chunk size, 1-8 parser workers, yields, os.Pipe; layer 3: obiconvert over file / stdin / forced format / gzip,bzip2,xz,zstd; the stdin (C reader: kseq + zlib) and file transports again with an AddressSanitizer build of the command. " +
-			"Added later: title lines of 4 KiB-66 kB, full-file batch mode, GenBank entries without sequence (CON), a byte order mark on files opened by name, named pipes, the first title line longer than the sniffing window, a CRLF straddling the 4 KiB buffer of the stdin reader, compressed files made of several members (an empty one included). " +
+			"Added later: title lines of 4 KiB-66 kB, full-file batch mode, GenBank entries without sequence (CON), a byte order mark on files opened by name, named pipes, the first title line longer than the sniffing window, a CRLF straddling the 4 KiB buffer of the stdin reader, compressed files made of several members (an empty one included). FASTQ read with the qualities switched off (no record may carry any), flat files read with their feature table kept, qualifier lines ending with the two slashes of an entry terminator. " +
 			"distinct_nontrivial = distinct (layer, format, style, #chunks class, transport, workers) with at least 2 chunks (layers 1-2) or distinct (format, transport, chunk size, size class) command runs (layer 3)",
 		Assume: []string{"well-formed input as defined in DESIGN.md Appendix A.4 (no blank lines inside files, no empty sequences except GenBank entries without ORIGIN block in the parser layers, flat-file lines <= 100 columns; a byte order mark only in front of files opened by name)", "b = 1 is excluded (the reader cannot progress with a one-byte buffer; production buffers are >= 1 MiB)"},
 		Subs: []core.Sub{
